@@ -627,6 +627,18 @@ def splice_faults(a, b, label: str):
     ta, tb = TokenView(a), TokenView(b)
     if ta.compact != tb.compact:
         return
+    if not ta.compact and "recipients" in ta.obj and "recipients" in tb.obj:
+        # a decoy entry beside the real one: the same recipient (same kid, or none) is listed twice and its two entries wrap
+        # different keys - the recipients disagree, whichever entry comes first
+        for i in range(min(ta.nrec(), tb.nrec())):
+            for where in ("before", "after"):
+                def decoy(tv, i=i, tb=tb, where=where):
+                    e = copy.deepcopy(tb.obj["recipients"][i])
+                    if e.get("encrypted_key") == tv.obj["recipients"][i].get("encrypted_key"):
+                        return False
+                    tv.obj["recipients"].insert(i if where == "before" else i + 1, e)
+                    return True
+                yield ("splice." + label + ".decoy-entry", "recipient entry %d of the other token inserted %s entry %d" % (i, where, i), decoy)
     if not ta.compact and ta.nrec() > 1 and tb.nrec() == ta.nrec():
         # several recipients: encrypted keys / whole recipient entries / content segments of the sibling token
         for i in range(ta.nrec()):
